@@ -343,6 +343,11 @@ func (p *wat2wasmWorker) buildInstruction(dst *wasm.Code, fn *ast.Func, i ast.In
 		dst.Body = append(dst.Body, wasm.OpcodeMemoryGrow, 0x00)
 	case token.INS_MEMORY_INIT:
 		ins := i.(ast.Ins_MemoryInit)
+		if p.mWasm.DataCountSection == nil {
+			// memory.init is only valid in a module with a data count section
+			n := uint32(len(p.mWat.Data))
+			p.mWasm.DataCountSection = &n
+		}
 		dst.Body = append(dst.Body, 0xfc, wasm.OpcodeMiscMemoryInit)
 		dst.Body = append(dst.Body, p.encodeUint32(uint32(ins.DataIdx))...)
 		dst.Body = append(dst.Body, 0x00)
